@@ -223,6 +223,8 @@ def run_property(pid, repo='/repo', tier='quick', seed=0, quiet=False):
         st = ctx.P.stats()
         if st['classes'] < 30 or st['modules'] < 20 or st['functions'] < 200:
             raise AnalysisError(f'only {st} analysed under {repo}; the package has 32 classes in 29 modules')
+        from .rules import c02 as _c02
+        _c02.ensure_deleg(ctx)
         obs = mod.check(ctx)
         if not obs:
             raise AnalysisError('rule module returned no obligations')
